@@ -144,6 +144,7 @@ package lua
 //@ ensures  $inv(self) && $sp(self) == old($sp(self)) + 1 && $cap(self) == old($cap(self))
 //@ ensures  frameIs($frame(self, old($sp(self))), v, old($sp(self)))
 //@ ensures  forall i int :: 0 <= i && i < old($sp(self)) ==> $frame(self, i) == old($frame(self, i)) && unchanged($frame(self, i))
+//@ ensures  "new-frame-is-a-different-object": forall i int :: 0 <= i && i < old($sp(self)) ==> $frame(self, i) != $frame(self, old($sp(self)))
 //@ modifies ghost(self), type callFrame.*
 
 //@ iface callFrameStack.Pop [C02 C05 C12]
